@@ -58,3 +58,22 @@ def refRequest (ext : Ext) (url sourceURL : Bytes) (requestType : Nat) : Option 
   | _, _ => none
 
 end UF
+
+namespace UF
+open Bytes
+
+/-- Side conditions of the URL grammar `scheme "://" host tail`, `tail` being
+    `[":" port] [("/"|"?") rest]`: non-empty scheme without '/' and ':', non-empty host without
+    `/ : ? # @`, and a tail that is empty or starts with one of `: / ?`. -/
+def goodURLParts (scheme host tail : Bytes) : Bool :=
+  !scheme.isEmpty && scheme.all (fun c => c != ch '/' && c != ch ':') &&
+  !host.isEmpty && host.all (fun c => !(c == ch '/' || c == ch ':' || c == ch '?' || c == ch '#' || c == ch '@')) &&
+  (match tail with
+   | [] => true
+   | c :: _ => c == ch '/' || c == ch ':' || c == ch '?')
+
+/-- The PSL oracle answers with a dot-suffix of the hostname (what `publicsuffix.PublicSuffix` does). -/
+def pslIsDotSuffix (ext : Ext) (h : Bytes) : Prop :=
+  h = (ext.psl h).1 ∨ ∃ pre, h = pre ++ ch '.' :: (ext.psl h).1
+
+end UF
